@@ -199,6 +199,14 @@ func (r *Run) Finish() int {
 	}
 	replayDir := filepath.Join(Root, "replays", r.Property)
 	_ = os.MkdirAll(replayDir, 0o755)
+	if old, err := filepath.Glob(filepath.Join(replayDir, "*.json")); err == nil {
+		for _, f := range old {
+			b := filepath.Base(f)
+			if strings.HasPrefix(b, "violation-") || strings.HasPrefix(b, "known-") {
+				_ = os.Remove(f) // artefacts of an earlier run; "fixed-*" regression cases are kept
+			}
+		}
+	}
 	writeReplay := func(name string, f Finding, n int) string {
 		p := filepath.Join(replayDir, name+".json")
 		bz, _ := json.MarshalIndent(map[string]interface{}{
